@@ -290,10 +290,10 @@ def stored(pkg, fmt):
     """the package with the values a float32 cube can hold"""
     if fmt == 'v2' and pkg['cube_dtype'] == 'f4':
         q = dict(pkg)
-        c = 1e-3 if pkg.get('cube_unit', 'mJy') == 'Jy' else 1.
+        c = convpkg.CUBE_UNITS[pkg.get('cube_unit', 'mJy')][0]
         q['flux'] = [[[float(np.float32(v * c)) / c for v in row] for row in mod] for mod in pkg['flux']]
         uu = pkg.get('cube_unc_unit', 'same')
-        cu = c if uu == 'same' else (1e-3 if uu == 'Jy' else 1.)
+        cu = c if uu == 'same' else convpkg.CUBE_UNITS[uu][0]
         q['err'] = [[[float(np.float32(v * cu)) / cu for v in row] for row in mod] for mod in pkg['err']]
         return q
     return pkg
